@@ -5,15 +5,8 @@
 open Rec_model
 open Conv
 
-let prims : prims =
-  { p_bs = nat_of_int 16;
-    p_enc = sm4_encrypt_rk;
-    p_dec = sm4_decrypt_rk;
-    p_macSize = nat_of_int 32;
-    p_mac = hmac_sm3;
-    p_overhead = nat_of_int 16;
-    p_seal = (fun rk nonce ad pt -> gcm_seal (sm4_encrypt_rk rk) nonce ad pt);
-    p_open = (fun rk nonce ad ct -> gcm_open (sm4_encrypt_rk rk) nonce ad ct) }
+(* the instance for which Rec/RecordSM4.v proves the premises on the primitives *)
+let prims : prims = sm4_prims
 
 let version_gmssl = n_of_int 0x0101
 
@@ -45,15 +38,50 @@ let hc_for suite (tag : int) seq : halfConn =
 
 let seq_one = List.map n_of_int [0; 0; 0; 0; 0; 0; 0; 1]
 
-let send suite (tag : int) (writes : n list list) : n list list =
+let send_c suite (tag : int) (writes : n list list) : connOut * n list list =
   let total = List.fold_left (fun a w -> a + List.length w) 0 writes in
   let nrec_bound = total / 1100 + 3 * List.length writes + 4 in
   let c = { o_hc = hc_for suite tag seq_one; o_vers = version_gmssl; o_bytesSent = n_of_int 2500;
             o_packetsSent = n_of_int 0; o_dynDisabled = false; o_rand = pseudo (tag + 99) (16 * nrec_bound);
             o_closeNotifySent = false } in
   match write_calls prims (nat_of_int (nrec_bound + 8)) c writes with
-  | Ok ((_, recs), false) -> recs
+  | Ok ((c', recs), false) -> (c', recs)
   | _ -> failwith "model sender failed"
+
+let send suite tag writes = snd (send_c suite tag writes)
+
+(* ---------- close cases: C id suite dir writes bufs ----------------------------------------------------------
+   the sender model writes, then sends close_notify (sendAlertLocked); the receiver model gets everything at
+   once and Reads with the given buffer sizes until the first error *)
+let stream_of (id : int) (writes : int list) (salt : int) : n list list =
+  let off = ref 0 in
+  List.map (fun w ->
+      let l = List.init w (fun j -> let i = !off + j in n_of_int ((i * 131 + (i lsr 8) + salt) land 255)) in
+      off := !off + w; l) writes
+
+let handle_c (f : string array) : string =
+  let id = int_of_string f.(1) in
+  let suite = f.(2) in
+  let writes = ints_of f.(4) in
+  let bufs = ints_of f.(5) in
+  let wbytes = stream_of id writes (id mod 251) in
+  let (c', recs) = send_c suite 1 wbytes in
+  match sendAlertLocked prims (nat_of_int 4) c' (n_of_int 0) with
+  | Ok ((_, arecs), _) ->
+    let all = recs @ arecs in
+    let wire = List.concat all in
+    let cin = { i_hc = hc_for suite 1 seq_one; i_vers = version_gmssl; i_raw = wire; i_input = None;
+                i_warnCount = nat_of_int 0; i_alerts = []; i_trace = [] } in
+    let total = List.fold_left (+) 0 writes in
+    let minb = List.fold_left min max_int bufs in
+    let nb = List.length bufs in
+    let barr = Array.of_list bufs in
+    let ncalls = total / minb + 2 * List.length all + 8 in
+    let bl = List.init ncalls (fun i -> nat_of_int barr.(i mod nb)) in
+    (match read_calls prims (nat_of_int (List.length all + 4)) cin bl with
+     | Ok ((out, err), _) -> Printf.sprintf "ok %d %s %d" (List.length all) (hex_of_bytes out) (if err then 1 else 0)
+     | Panic -> "PANIC" | Hang -> "HANG" | Err _ -> "err")
+  | _ -> "err sender"
 
 let handle_s (f : string array) : string =
   let id = int_of_string f.(1) in
@@ -112,7 +140,7 @@ let handle_s (f : string array) : string =
   let c = if !used_c then Lazy.force foreign else [] in
   let wire = apply_script g o c acts in
   let cin = { i_hc = hc_for suite 1 seq_one; i_vers = version_gmssl; i_raw = wire; i_input = None;
-              i_warnCount = nat_of_int 0; i_alerts = nat_of_int 0; i_trace = [] } in
+              i_warnCount = nat_of_int 0; i_alerts = []; i_trace = [] } in
   let rounds = nat_of_int (List.length wire / 5 + 4) in
   let bufs = ints_of f.(7) in
   let total_plain = List.fold_left (+) 0 writes in
@@ -120,7 +148,7 @@ let handle_s (f : string array) : string =
   let show out err c' =
     Printf.sprintf "ok %d %s %d %d %d" n
       (if g = [] then "-" else String.concat "," (List.map (fun r -> string_of_int (List.length r)) g))
-      (List.length out) (if err then 1 else 0) (if int_of_nat c'.i_alerts > 0 then 1 else 0) in
+      (List.length out) (if err then 1 else 0) (if c'.i_alerts <> [] then 1 else 0) in
   if bufs <> [] && total_plain / minb <= 3000 then begin
     (* the application calling Conn.Read with the given buffer sizes, cyclically, until the first error *)
     let nb = List.length bufs in
@@ -135,6 +163,46 @@ let handle_s (f : string array) : string =
     match recv_all prims rounds rounds cin with
     | Ok (out, c') -> show out c'.i_hc.hc_err c'
     | Panic -> "PANIC" | Hang -> "HANG" | Err _ -> "err"
+
+(* ---------- real captures: K id suite wC wS clientRandom serverRandom masterSecret recsC2S recsS2C --------------
+   The key block is derived from the master secret as gmtls does (Agree/KeyModel.v keysFromMasterSecret over
+   HMAC-SM3); then every record captured after ChangeCipherSpec is opened with the record-layer model: the
+   Finished record under sequence number 0, then the application data records.  Output: the application bytes
+   of both directions. *)
+let handle_k (f : string array) : string =
+  let suite = f.(2) in
+  let cr = bytes_of_hex f.(5) and sr = bytes_of_hex f.(6) and ms = bytes_of_hex f.(7) in
+  let (macLen, keyLen, ivLen) = if suite = "cbc" then (32, 16, 16) else (0, 16, 4) in
+  match keysFromMasterSecret_model hmac_sm3 (nat_of_int 16) ms cr sr
+          (nat_of_int macLen) (nat_of_int keyLen) (nat_of_int ivLen) with
+  | Ok (((((cMAC, sMAC), cKey), sKey), cIV), sIV) ->
+    let zero_seq = List.init 8 (fun _ -> n_of_int 0) in
+    let mk key mac iv : halfConn =
+      let rk = sm4_round_keys key in
+      if suite = "cbc" then
+        { hc_err = false; hc_version = version_gmssl; hc_cipher = CipherCBC (rk, iv); hc_mac = Some mac; hc_seq = zero_seq }
+      else
+        { hc_err = false; hc_version = version_gmssl; hc_cipher = CipherAEAD (rk, iv); hc_mac = None; hc_seq = zero_seq } in
+    let decode (hc0 : halfConn) (recs : n list list) : (n list, string) result =
+      let rec go hc j acc = function
+        | [] -> Result.Ok (List.concat (List.rev acc))
+        | r :: rest ->
+          (match decrypt prims hc r with
+           | Ok (hc', Some pt) ->
+             let typ = int_of_n (List.hd r) in
+             if j = 0 then
+               (* the Finished message: handshake type 20, 12 bytes of verify_data *)
+               if typ = 22 && List.length pt = 16 && int_of_n (List.hd pt) = 20 then go hc' (j + 1) acc rest
+               else Result.Error (Printf.sprintf "finished-shape-%d" j)
+             else if typ = 23 then go hc' (j + 1) (pt :: acc) rest
+             else Result.Error (Printf.sprintf "type-%d" j)
+           | _ -> Result.Error (Printf.sprintf "rejected-%d" j)) in
+      go hc0 0 [] recs in
+    (match decode (mk cKey cMAC cIV) (hexlist_of f.(8)), decode (mk sKey sMAC sIV) (hexlist_of f.(9)) with
+     | Result.Ok a, Result.Ok b -> "ok " ^ hex_of_bytes a ^ " " ^ hex_of_bytes b
+     | Result.Error e, _ -> "err c2s-" ^ e
+     | _, Result.Error e -> "err s2c-" ^ e)
+  | _ -> "err keyblock"
 
 let handle (f : string array) : string =
   match f.(0) with
@@ -173,6 +241,54 @@ let handle (f : string array) : string =
      | Ok (hc', None) -> "err " ^ hex_of_bytes hc'.hc_seq
      | Panic -> "PANIC" | Hang -> "HANG" | Err _ -> "err")
   | "S" -> handle_s f
+  | "K" -> handle_k f
+  | "C" -> handle_c f
+  | "M" ->
+    (* M id suite ver key mackey iv seq items: several records through one write / one read half connection *)
+    let ver = n_of_int (int_of_string ("0x" ^ f.(3))) in
+    let verb = bytes_of_hex f.(3) in
+    let hc0 = { (mk_hc f.(2) f.(4) f.(5) f.(6) f.(7)) with hc_version = ver } in
+    let rec go w r j recs pts = function
+      | [] -> "ok " ^ String.concat "," (List.rev_map (fun x -> if x = [] then "." else hex_of_bytes x) recs |> List.rev |> List.rev)
+              ^ " " ^ String.concat "," (List.rev_map (fun x -> if x = [] then "." else hex_of_bytes x) pts |> List.rev |> List.rev)
+              ^ " " ^ hex_of_bytes w.hc_seq ^ " " ^ hex_of_bytes r.hc_seq
+      | it :: rest ->
+        (match String.split_on_char ':' it with
+         | [typ; eiv; data] ->
+           let eiv = bytes_of_hex eiv and data = bytes_of_hex data in
+           let m = List.length data in
+           let hdr = n_of_int (int_of_string typ) :: verb @ [n_of_int ((m lsr 8) land 255); n_of_int (m land 255)] in
+           (match encrypt prims w (hdr @ eiv @ data) (nat_of_int (List.length eiv)) with
+            | Ok (w', out) ->
+              (match decrypt prims r out with
+               | Ok (r', Some pt) -> go w' r' (j + 1) (out :: recs) (pt :: pts) rest
+               | Ok (_, None) -> Printf.sprintf "err %d" j
+               | Panic -> "PANIC" | Hang -> "HANG" | Err _ -> "err")
+            | Panic -> "PANIC" | Hang -> "HANG" | Err _ -> "err")
+         | _ -> "BADCASE") in
+    let show l = String.concat "," (List.map (fun x -> if x = [] then "." else hex_of_bytes x) l) in
+    ignore show;
+    go hc0 hc0 0 [] [] (split_list f.(8))
+  | "H" ->
+    (* H id isClient vers haveVers seq nextSuite key mackey iv hand wire wants *)
+    let vers = n_of_int (int_of_string ("0x" ^ f.(3))) in
+    let hc = { hc_err = false; hc_version = vers; hc_cipher = CipherNone; hc_mac = None; hc_seq = bytes_of_hex f.(5) } in
+    let next =
+      if f.(6) = "-" then None
+      else let h = mk_hc f.(6) f.(7) f.(8) f.(9) f.(5) in Some (h.hc_cipher, h.hc_mac) in
+    let cin = { i_hc = hc; i_vers = vers; i_raw = bytes_of_hex f.(11); i_input = None;
+                i_warnCount = nat_of_int 0; i_alerts = []; i_trace = [] } in
+    let s0 = { s_in = cin; s_haveVers = (f.(4) = "1"); s_hand = bytes_of_hex f.(10); s_next = next } in
+    let wants = List.map n_of_int (ints_of f.(12)) in
+    (match readRecords_hs prims (nat_of_int 64) wants (nat_of_int 0) s0 with
+     | Ok (failed, s') ->
+       let c = s'.s_in in
+       Printf.sprintf "ok %d %s %s %d %s"
+         (match failed with Some i -> int_of_nat i | None -> -1)
+         (hex_of_bytes s'.s_hand) (hex_of_bytes c.i_hc.hc_seq)
+         (match c.i_hc.hc_cipher with CipherNone -> 0 | _ -> 1)
+         (hex_of_bytes (List.rev c.i_alerts))
+     | Panic -> "PANIC" | Hang -> "HANG" | Err _ -> "err")
   | _ -> "SKIP"
 
 let () = run_file Sys.argv.(1) handle
